@@ -25,6 +25,12 @@ RULE = ("K users x N antennas per user (quick K 2..4, N 1..3; thorough K 2..6, "
         "stream reduction active (some user transmits fewer streams than it "
         "has antennas), or an external-interference-aware receive filter was "
         "checked; distinct = SHA-1 of the case description")
+RULE += (" Added after the white-box review: "
+         "noise and external power optionally x 1e-14..1e-6, settings "
+         "dictionary with extra keys, stream count as numpy integer, "
+         "never-configured object, attributes assigned between two "
+         "runs ")
+
 LEVEL_TEXT = ("Generated-input search (Hypothesis, seeded, sharded) over user "
               "layouts, channels with controlled conditioning, powers, noise, "
               "external interference layouts and every stream-reduction "
